@@ -408,6 +408,8 @@ def runFsck (st st' : OState) (v : OpView) (c : Ctx) (onlyFat : Bool) :
         let toC10 := cl == "fat-copies" || cl == "reserved-entries"
         if toC10 && v.prop == "C10" then some s!"C10 {cl} op={c.op} res={c.rk} {rest}"
         else if !toC10 && v.prop == "C03" then some s!"C03 {cl} op={c.op} res={c.rk} {rest}"
+        else if v.prop == "C16" && (cl == "dup-short" || (cl == "dup-long" && (rest.splitOn "equals the short name").length > 1)) then
+          some s!"C16 alias-not-unique {cl} op={c.op} res={c.rk} {rest}"
         else if v.prop == "C08" then some s!"C08 invalid-after-mutation {cl} op={c.op} res={c.rk} {rest}"
         else if v.prop == "C20" && cl == "fat-link-range" then some s!"C20 fat-link-range op={c.op} res={c.rk} {rest}"
         else none
@@ -1291,6 +1293,9 @@ def stepO (st : OState) (v : OpView) : OState × List String :=
   let st' := { update st v c with prevOverlay := v.overlay }
   match v.prop with
   | "C03" =>
+    let (pm, pc, stale, msgs) := runFsck st st' v c false
+    ({ st' with prevMsgs := pm, prevClean := pc, fsckStale := stale }, msgs)
+  | "C16" =>
     let (pm, pc, stale, msgs) := runFsck st st' v c false
     ({ st' with prevMsgs := pm, prevClean := pc, fsckStale := stale }, msgs)
   | "C10" =>
